@@ -1,13 +1,13 @@
 CONSTANTS
-  Sess = {1, 2}
+  Sess = {1}
   NC = 2
-  NS = 0
+  NS = 1
   Frag = FALSE
   HoldMutex = TRUE
   CloseC = TRUE
-  Tampers = 0
+  Tampers = 1
   Recheck = TRUE
 INIT Init
 NEXT Next
-INVARIANTS PrefixOK NoFramingLoss CloseNoTrunc NeverBroken
+INVARIANTS PrefixOK
 CHECK_DEADLOCK FALSE
